@@ -88,6 +88,8 @@ pub enum Step {
     /// the busy HTTP/1 connection wakes whoever waits for its readiness without being ready (a
     /// body frame went by; wake-ups may always be spurious)
     ConnWake { conn_of: u32 },
+    /// fault: the response future of this request's exchange panics at its next poll
+    RespondPanic { req: u32 },
     Bg,
     Advance { ms: u64 },
     DropService,
@@ -116,6 +118,7 @@ impl Step {
             Step::DropService => 15,
             Step::Gate { .. } => 16,
             Step::ConnWake { .. } => 17,
+            Step::RespondPanic { .. } => 18,
         }
     }
 }
@@ -149,6 +152,11 @@ pub struct PoolCfg {
     /// the schedule may close and open the readiness of the service below the pool
     #[serde(default)]
     pub gate_inner: bool,
+    /// the caller does not drop a request's future when it completes (a pinned future in a
+    /// `select!`, a fallback issued in the same scope): finished futures stay alive to the end of
+    /// the run
+    #[serde(default)]
+    pub keep_finished: bool,
 }
 
 #[derive(Clone, Debug, Serialize, Deserialize)]
@@ -221,6 +229,7 @@ struct Weights {
     respond: u32,
     respond_upgrade: u32,
     respond_err: u32,
+    respond_panic: u32,
     conn_ready: u32,
     conn_close: u32,
     conn_wake: u32,
@@ -244,6 +253,7 @@ fn weights_for(profile: &str, r: &mut Rng, faulty: bool) -> Weights {
         respond: 12,
         respond_upgrade: 0,
         respond_err: 1,
+        respond_panic: 0,
         conn_ready: 12,
         conn_close: 3,
         conn_wake: 3,
@@ -257,6 +267,7 @@ fn weights_for(profile: &str, r: &mut Rng, faulty: bool) -> Weights {
         "C02" => {
             w.h2_pct = 15;
             w.respond_upgrade = 3;
+            w.respond_panic = 2;
             w.conn_wake = 8;
             w.cancel = 8;
             w.conn_close = 2;
@@ -324,6 +335,7 @@ fn weights_for(profile: &str, r: &mut Rng, faulty: bool) -> Weights {
         w.dial_fail = 0;
         w.hs_fail = 0;
         w.respond_err = 0;
+        w.respond_panic = 0;
         w.conn_close = 0;
         w.drop_service = 0;
     } else {
@@ -393,6 +405,11 @@ fn gen_cfg(profile: &str, r: &mut Rng) -> PoolCfg {
         gate_transport: match profile {
             "C14" => r.chance(1, 2),
             "C03" | "C15" | "C17" | "C19" => r.chance(1, 4),
+            _ => false,
+        },
+        keep_finished: match profile {
+            "C15" | "C03" => r.chance(1, 3),
+            "C14" | "C04" | "C19" => r.chance(1, 4),
             _ => false,
         },
         gate_inner: match profile {
@@ -471,6 +488,8 @@ struct Run<'a> {
     /// per request: its waker had been invoked and it had not been polled since, when the
     /// current step began
     woken_before_step: Vec<bool>,
+    /// futures that have completed and are kept alive (cfg.keep_finished)
+    kept_futs: Vec<BoxFut>,
 }
 
 pub struct PoolSim {
@@ -571,6 +590,9 @@ impl<'a> Run<'a> {
                 if wt.respond_err > 0 {
                     v.push((wt.respond_err, Step::RespondErr { req: r }));
                 }
+                if wt.respond_panic > 0 && !e.panic_next {
+                    v.push((wt.respond_panic, Step::RespondPanic { req: r }));
+                }
             }
         }
         for c in &w.conns {
@@ -642,6 +664,7 @@ impl<'a> Run<'a> {
             Step::Respond { req } => Step::Respond { req: m(req)? },
             Step::RespondUpgrade { req } => Step::RespondUpgrade { req: m(req)? },
             Step::RespondErr { req } => Step::RespondErr { req: m(req)? },
+            Step::RespondPanic { req } => Step::RespondPanic { req: m(req)? },
             Step::ConnReady { conn_of } => Step::ConnReady { conn_of: m(conn_of)? },
             Step::ConnClose { conn_of } => Step::ConnClose { conn_of: m(conn_of)? },
             Step::ConnWake { conn_of } => Step::ConnWake { conn_of: m(conn_of)? },
@@ -660,6 +683,7 @@ impl<'a> Run<'a> {
             Step::Respond { req } => Step::Respond { req: m(req) },
             Step::RespondUpgrade { req } => Step::RespondUpgrade { req: m(req) },
             Step::RespondErr { req } => Step::RespondErr { req: m(req) },
+            Step::RespondPanic { req } => Step::RespondPanic { req: m(req) },
             Step::ConnReady { conn_of } => Step::ConnReady { conn_of: m(conn_of) },
             Step::ConnClose { conn_of } => Step::ConnClose { conn_of: m(conn_of) },
             Step::ConnWake { conn_of } => Step::ConnWake { conn_of: m(conn_of) },
@@ -839,6 +863,21 @@ impl<'a> Run<'a> {
                 let wakers = std::mem::take(&mut w.conns[c].ready_wakers);
                 drop(w);
                 for wk in wakers {
+                    wk.wake();
+                }
+                true
+            }
+            Step::RespondPanic { req } => {
+                let mut w = self.w.lock();
+                let Some(e) = w.exchs.iter().position(|e| e.req == Some(*req) && e.state == AsyncState::Pending && !e.panic_next) else {
+                    return false;
+                };
+                w.exchs[e].panic_next = true;
+                w.ev(45, e as u64, 0);
+                let wk = w.exchs[e].waker.take();
+                drop(w);
+                self.out.count("fault.panic_in_response_future");
+                if let Some(wk) = wk {
                     wk.wake();
                 }
                 true
@@ -1161,6 +1200,9 @@ impl<'a> Run<'a> {
 
     fn note_panics(&mut self, req: Option<u32>, place: &str) {
         for p in simrt::take_panics() {
+            if p.is_injected() {
+                continue; // the fault itself (Step::RespondPanic), not the library's doing
+            }
             if p.in_harness() {
                 self.out.harness_error = Some(format!("panic in harness code at {}: {}", p.location(), p.message));
                 continue;
@@ -1256,7 +1298,12 @@ impl<'a> Run<'a> {
                 self.reqs[i].fut = Some(fut);
             }
             Ok(Poll::Ready(r)) => {
-                drop(fut);
+                if self.case.cfg.keep_finished {
+                    self.out.count("probe.finished_future_kept_alive");
+                    self.kept_futs.push(fut);
+                } else {
+                    drop(fut);
+                }
                 let now = self.now_ms();
                 self.reqs[i].done_ms = Some(now);
                 match r {
@@ -1809,6 +1856,30 @@ impl<'a> Run<'a> {
                 break;
             }
         }
+        // C19: everything outstanding has been resolved, fault-free, and whoever was woken has been
+        // polled. A request that is still pending now is waiting for nothing - its own deadline
+        // will end it, which hides the fact from the liveness check below. If an earlier request
+        // to the same origin had timed out before this one was issued, this is "the pool left
+        // unable to serve subsequent requests to that origin".
+        if self.case.cfg.timeout_ms.is_some() && !self.service_dropped {
+            let stuck: Vec<usize> = (0..self.reqs.len()).filter(|i| self.reqs[*i].state == RState::Pending && self.reqs[*i].polls > 0).collect();
+            for r in stuck {
+                let (o, issued) = (self.reqs[r].origin, self.reqs[r].issue_ms);
+                let earlier = self
+                    .reqs
+                    .iter()
+                    .position(|q| q.origin == o && q.state == RState::DoneErr("timeout".into()) && q.done_ms.map(|t| t <= issued).unwrap_or(false));
+                if let Some(q) = earlier {
+                    let stage = self.request_stage(r as u32);
+                    self.viol(
+                        "C19",
+                        "pool_unusable_after_timeout",
+                        json!({"state": "later_request_stranded"}),
+                        format!("request {} timed out; request {} to the same origin, issued afterwards, is still pending (stage {}) although every outstanding attempt has been resolved - only its own deadline will end it", q, r, stage),
+                    );
+                }
+            }
+        }
         // if a request timeout is configured, let every deadline pass: each request must resolve
         if self.case.cfg.timeout_ms.is_some() && self.reqs.iter().any(|r| r.state == RState::Pending) {
             let d = self.case.cfg.timeout_ms.unwrap();
@@ -1847,6 +1918,16 @@ impl<'a> Run<'a> {
                         r, self.reqs[r as usize].ver, kind, fate
                     ),
                 );
+                if !self.preempted.is_empty() {
+                    // C14: an abandoned attempt "leaves nothing behind" - a request that waits for an
+                    // attempt nobody is making any more is waiting for what one left behind
+                    self.viol(
+                        "C14",
+                        "abandoned_attempt_left_something_behind",
+                        json!({"seen": "stranded_request", "continue": self.case.cfg.continue_after_preemption}),
+                        format!("after {} attempt(s) had been abandoned (pre-empted or cancelled), request {} waits for ever although nothing is outstanding (stage {}, owner attempt: {})", self.preempted.len(), r, kind, fate),
+                    );
+                }
             } else {
                 self.viol(
                     "C03",
@@ -1985,6 +2066,14 @@ impl<'a> Run<'a> {
                     json!({"state": match &st { RState::Pending => "pending", RState::DoneErr(_) => "error", _ => "other" }}),
                     format!("a fresh request to {} after the drain did not complete successfully: {:?}", self.case.cfg.origins[o], st),
                 );
+                if !self.preempted.is_empty() {
+                    self.viol(
+                        "C14",
+                        "abandoned_attempt_left_something_behind",
+                        json!({"seen": "probe_failed", "continue": self.case.cfg.continue_after_preemption}),
+                        format!("after {} attempt(s) had been abandoned (pre-empted or cancelled), a fresh request to {} did not complete: {:?}", self.preempted.len(), self.case.cfg.origins[o], st),
+                    );
+                }
                 if self.case.cfg.timeout_ms.is_some() {
                     self.viol(
                         "C19",
@@ -2160,6 +2249,7 @@ impl PoolSim {
                 rmap: vec![],
                 dirty_since_cancel: vec![false; case.cfg.origins.len()],
                 woken_before_step: vec![],
+                kept_futs: vec![],
             };
             match &case.steps {
                 Some(steps) => {
